@@ -18,16 +18,19 @@ program lengths, any interleaving.  Core Lean only.
 | `basicLoader.GetEntry` (RLock); the reader then reads `entry.Value()` with no lock — the entry is immutable since fix e398ee4 (SetEntry re-points the map slot instead of writing into the old entry) | `.get`: the step reads the slot, `PC.getHold` keeps the entry's content |
 | `parentedLoader.Discover`: parent's list, `verifhook.Point("parented.discover")`, then the own iteration under the own RLock (skipping the names of the parent's list) | `PC.discWalk`, one level per step          |
 
-No theorem is claimed about the ANSWER of a concurrent discovery (its levels are read at different times, see the known
-finding C13-chain-walk-not-atomic); discovery only reads, so it cannot affect the invariants proved about the shared
-state (C13_writeonce, C13_agree, C13_nocrash, C13_sc_partial).
+The ANSWER of a concurrent discovery is not the sequential answer of any single moment (its levels are read at different
+times, see the known finding C13-chain-walk-not-atomic); what is proved about it is the sandwich `C13_discover_sandwich`:
+it contains every name the sequential discovery would have answered when the operation began and only names the
+sequential discovery answers when it ends.  Discovery only reads, so it cannot affect the invariants proved about the
+shared state (C13_writeonce, C13_agree, C13_nocrash, C13_sc_partial).
 
 `isYield` marks the continuations at which the deterministic scheduler of harness/c13 can park a goroutine (the
 `verifhook.Point` sites and the harness's own points); `release` runs a thread to its next yield point and `runSched`
 executes a schedule exactly as the harness does.  The step relation used by the theorems is finer (every atomic step).
 
 Ghost data (never printed): a log entry carries, for an answer that hands out a value, the loader level and key the value
-was read from; `WalkSt` remembers which levels a lookup has already found unbound.
+was read from; `WalkSt` remembers which levels a lookup has already found unbound; `PC.discWalk` carries the levels a
+discovery has passed and `snap`, the shared state at the moment the discovery began.
 -/
 namespace Pcore.LoaderConc
 open Pcore.LoaderSeq
@@ -48,7 +51,7 @@ inductive PC where
   | loadMiss (l : Nat) (n : Name)
   | hasWalk (l : Nat) (k : Key) (todo : List Nat)
   | getHold (l : Nat) (k : Key) (e : Option (Option V))
-  | discWalk (l : Nat) (p : Key → Bool) (todo : List Nat) (passed : List Nat) (found : List Key)
+  | discWalk (l : Nat) (p : Key → Bool) (todo : List Nat) (passed : List Nat) (found : List Key) (snap : Sys)
   deriving Inhabited
 
 /-- where a handed-out value came from (ghost) -/
@@ -91,7 +94,7 @@ def startOp (s : Sys) (log : List (Ans × Src)) (rest : List Op) : Op → Sys ×
   | .define l n v => ((define s l n v).1, { pc := .idle, ops := rest, log := log ++ [((define s l n v).2, none)] })
   | .has l n => (s, { pc := .hasWalk l (canon n) (chain s.ps l).reverse, ops := rest, log := log })
   | .get l n => (s, { pc := .getHold l (canon n) (lk (canon n) (s.ents l)), ops := rest, log := log })
-  | .discover l p => (s, { pc := .discWalk l p (chain s.ps l).reverse [] [], ops := rest, log := log })
+  | .discover l p => (s, { pc := .discWalk l p (chain s.ps l).reverse [] [] s, ops := rest, log := log })
 
 /-- `load` after `LoadEntry` answered nil: `SetEntry(placeholder)` -/
 def missStep (s : Sys) (l : Nat) (k : Key) : Sys × Ans :=
@@ -125,11 +128,11 @@ def stepThread (s : Sys) (t : Thread) : Sys × Thread :=
     else (s, { pc := .hasWalk l k todo, ops := t.ops, log := t.log })
   | .hasWalk _ _ [] => (s, { pc := .idle, ops := t.ops, log := t.log ++ [(.bool false, none)] })
   | .getHold l k e => (s, { pc := .idle, ops := t.ops, log := t.log ++ [(.entry e, srcOf l k e)] })
-  | .discWalk l p (x :: todo) passed found =>
+  | .discWalk l p (x :: todo) passed found snap =>
     match todo with
     | [] => (s, { pc := .idle, ops := t.ops, log := t.log ++ [(.keys (discLevel s.es x found p), none)] })
-    | _ :: _ => (s, { pc := .discWalk l p todo (x :: passed) (discLevel s.es x found p), ops := t.ops, log := t.log })
-  | .discWalk _ _ [] _ found => (s, { pc := .idle, ops := t.ops, log := t.log ++ [(.keys found, none)] })
+    | _ :: _ => (s, { pc := .discWalk l p todo (x :: passed) (discLevel s.es x found p) snap, ops := t.ops, log := t.log })
+  | .discWalk _ _ [] _ found _ => (s, { pc := .idle, ops := t.ops, log := t.log ++ [(.keys found, none)] })
 
 /-- thread `i` takes one step (nothing happens when there is no such thread) -/
 def stepAt (c : Config) (i : Nat) : Config :=
@@ -155,8 +158,8 @@ def isYield : PC → Bool
   | .loadMiss _ _ => true               -- "load.miss-window"
   | .hasWalk _ _ _ => false
   | .getHold _ _ _ => true              -- "get.hold"
-  | .discWalk _ _ (_ :: _) _ _ => true  -- "parented.discover"
-  | .discWalk _ _ [] _ _ => false
+  | .discWalk _ _ (_ :: _) _ _ _ => true  -- "parented.discover"
+  | .discWalk _ _ [] _ _ _ => false
 
 /-- keep stepping thread `i` until it is parked again (or has finished) -/
 def runToYield : Nat → Config → Nat → Config
